@@ -24,6 +24,10 @@ type MetricCase struct {
 	// Identical, when set, is the number of records, all with the same line and labels: whatever
 	// the query does with their names and values, they carry equal label sets (C10).
 	Identical int `json:"identical,omitempty"`
+	// Near, when set, holds the number of records of each of a few lines that differ in one
+	// label value only, by as little as a value can differ (C10): one series per value.
+	Near     []int    `json:"near,omitempty"`
+	NearVals []string `json:"near_vals,omitempty"`
 }
 
 func sortedRecs(in []model.Rec) []model.Rec {
